@@ -418,7 +418,10 @@ SPEC = {
             "30: refused by the front end), a cbuffer with / without register in front, between or after, uses of elements; every "
             "program has a typedef'd array that is not the last resource, so a resource that loses or gains slots moves a "
             "follower; the exporter prints no typedef, so the second generation sees other layer chains (const outside vs "
-            "inside the array layer); any failure is a violation. C04.fix tpl: function templates with value parameters (int / uint / bool, `typename T, T N`, two parameters) and type "
+            "inside the array layer); one known class, decided on the two emitted texts alone (every differing line differs by "
+            "exactly a leading `const ` on a root-level resource array declaration with a register annotation, slots equal: the "
+            "const a typedef put on the ELEMENT type of a typedef'd array is printed once - lines of the class are passed over "
+            "when the first differing line is reported); any other failure is a violation. C04.fix tpl: function templates with value parameters (int / uint / bool, `typename T, T N`, two parameters) and type "
             "parameters deduced from literal arguments; bodies combine the parameter with untyped literals in int / uint / float "
             "contexts (initialisers, compound assignments, operands, loop bounds, ?:, case labels, overloaded-function and intrinsic "
             "arguments, unary operators, array sizes); arguments are unsuffixed / suffixed literals and literal expressions, bools "
